@@ -18,3 +18,4 @@ PROPERTY DropWhenFull
 PROPERTY StoreBelowCap
 PROPERTY ClearEmpties
 PROPERTY ClearPoke
+CHECK_DEADLOCK FALSE
